@@ -16,7 +16,8 @@ META = {
     "explanation": "Value-level round-trip equality is obtained by composition: (a) G-incl - for each of the 108 messages the wire-layout automaton of its "
                    "encoder (sequence of carrier.width events on Ok paths, fragment calls expanded, determinised and minimised) is included in the "
                    "decoder's automaton, so every layout the encoder can emit is one the decoder follows (inclusion, not equality: the 1059/1065 decoders "
-                   "accept a strictly larger language); (b) every field codec is pattern-idempotent and both directions use the same constants (C08's "
+                   "accept a strictly larger language); (a') D-rej - every direct rejection in the decode closure is one of the enumerated ones, so no extra "
+                   "plausibility test can turn an encoder-produced frame into Corrupt; (b) every field codec is pattern-idempotent and both directions use the same constants (C08's "
                    "O-agree/O-err/O-int, run here); (c) list counts on the wire equal element counts and decoders rebuild exactly count elements (C15/C16 "
                    "rules, run here); (d) MSM rows and 1230 entries are written in the canonical order the decoder reconstructs (S-sort, S-asc, M-order); "
                    "(e) number <-> variant <-> codec dispatch is coherent, Err maps to Corrupt only (C14 tables, run here). Then for F = enc(M): dec(F) "
@@ -55,6 +56,8 @@ def run(ctx, res):
     if "all_msgs" in set(prog.crate["features"]):
         res.floor("G-incl", "messages compared", n, 108)
     res.extra["codec_automata"] = len(memo)
+    import rejects
+    rejects.rule_reject_inventory(prog, res)
     # imported rule sets (composition)
     fieldmodel.check_fields(prog, res, prop="C08")
     fieldmodel.check_handwritten(prog, res, prop="C08")
@@ -68,3 +71,9 @@ def run(ctx, res):
     textrules.rule_char_maps(prog, res)
     textrules.rule_limits(prog, res)
     lists.rule_strings(prog, res)
+    # the frame is a function of the message alone (C12's typestate): needed for 're-encoding reproduces the frame'
+    import builder, engine
+    builder.rules_new_clear(prog, res)
+    bm = builder.BuildModel(prog, res)
+    builder.rules_typestate(prog, res, bm)
+    builder.rules_frame_shape(prog, engine.Filtered(res, {"T-writes", "T-pre", "W-win", "W-out"}), bm)
